@@ -29,6 +29,13 @@ func genParamsEvm(w io.Writer) {
 	def("gp_ExpGas", params.ExpGas)
 	def("gp_StackLimit", params.StackLimit)
 	def("gp_CallStipend", params.CallStipend)
+	def("gp_SstoreSetGas", params.SstoreSetGas)
+	def("gp_SstoreClearGas", params.SstoreClearGas)
+	def("gp_SstoreResetGas", params.SstoreResetGas)
+	def("gp_SstoreRefundGas", params.SstoreRefundGas)
+	def("gp_CallNewAccountGas", params.CallNewAccountGas)
+	def("gp_CallValueTransferGas", params.CallValueTransferGas)
+	def("gp_SuicideRefundGas", params.SuicideRefundGas)
 	def("gp_GasQuickStep", vm.GasQuickStep)
 	def("gp_GasFastestStep", vm.GasFastestStep)
 	def("gp_GasFastStep", vm.GasFastStep)
